@@ -18,8 +18,10 @@ import time
 VERIF = os.path.dirname(os.path.dirname(os.path.abspath(__file__)))
 REPO = os.environ.get("OAL_REPO", "/repo")
 CACHE = os.environ.get("VERIF_CACHE", os.path.join(VERIF, ".cache"))
-EVID = os.path.join(VERIF, "evidence")
-REPLAYS = os.path.join(VERIF, "replays")
+# VERIF_OUT: development only (a second run next to one that is using /verif/evidence); registered commands never set it
+_OUT = os.environ.get("VERIF_OUT", VERIF)
+EVID = os.path.join(_OUT, "evidence")
+REPLAYS = os.path.join(_OUT, "replays")
 FINDINGS = os.path.join(VERIF, "known_findings.json")
 
 OFFLINE_ENV = {
